@@ -126,6 +126,9 @@ func runC08(ops []string) CaseResult {
 		if retry {
 			continue
 		}
+		for _, i := range c08Truncated {
+			w.tags[fmt.Sprintf("exhaustive-truncated:two-reader-scenario-%d", i)] = true
+		}
 		w.finish()
 		res.Nontrivial = w.tags["conc:interleaved"]
 		return res
@@ -318,6 +321,9 @@ func c08Scenarios2() []c08Scn {
 	return out
 }
 
+// two-reader scenarios whose exhaustive enumeration hit the budget (reported as a tag on the corpus/first case)
+var c08Truncated []int
+
 func exhC08(tier string, emit func([]string)) {
 	if c08RunConc == nil {
 		emit(c08Scenarios1()[0].ops(""))
@@ -327,8 +333,14 @@ func exhC08(tier string, emit func([]string)) {
 		c08Explore(s, 20000, emit)
 	}
 	if tier == "thorough" {
-		for _, s := range c08Scenarios2() {
-			c08Explore(s, 150000, emit)
+		for i, s := range c08Scenarios2() {
+			n, trunc := c08Explore(s, 150000, emit)
+			if os.Getenv("VERIF_DEBUG") != "" {
+				fmt.Fprintf(os.Stderr, "c08 two-reader scenario %d: %d schedules truncated=%v\n", i, n, trunc)
+			}
+			if trunc {
+				c08Truncated = append(c08Truncated, i)
+			}
 		}
 	}
 }
